@@ -1685,4 +1685,100 @@ theorem legalFrom_all_accepted (qs : List CQueue) (items : List RItem) (hl : Leg
     ((Core.fresh qs).replay items).2 = items :=
   legal_all_accepted _ _ (legal_of_legalFrom qs _ [] [] [] items (reg_fresh qs) hl)
 
+/-! ### the "ask → allocation" transition branch of UpdateAllocation (a key replayed as an ask, reported as bound later) -/
+
+theorem books_recBind (s : Core) (x : RAlloc) (hw : CoreWF s) (hb : Books s) : Books (s.recBind x).1 := by
+  unfold recBind
+  split
+  · rename_i a n hfind hnode
+    obtain ⟨ham, hl, hid⟩ := findApp_some hfind
+    split
+    · exact hb
+    · rename_i i hitem
+      split
+      · exact hb
+      · have him : i ∈ a.items := List.mem_of_find?_eq_some hitem
+        have hip := List.find?_some hitem
+        simp only [Bool.and_eq_true, beq_iff_eq, Bool.not_eq_true'] at hip
+        obtain ⟨⟨hkey, hreq⟩, hnal⟩ := hip
+        have hnb : i.bound = false := by
+          cases hbd : i.bound with
+          | false => rfl
+          | true => rw [hw.boundAllocated a ham hl i him hbd] at hnal; cases hnal
+        obtain ⟨hwp, hwa, hwh⟩ := hw.appRes a ham hl
+        obtain ⟨hwr, hnn⟩ := hw.itemRes a ham hl i him
+        have hba := hb.apps a ham hl
+        have hkeys := hw.itemKeys a ham hl
+        have hge := fun q hq hun k => pending_ge s.apps (fun y hy hyl j hj => (hw.itemRes y hy hyl j hj).2) hb.apps a ham hl i him
+          (by simp [hreq, hnal]) q (hb.queues q hq) hun k
+        have hnodes : ∀ phv : Bool, ∀ m ∈ updNs s.nodes x.node (fun n => { n with
+            allocs := n.allocs ++ [{ key := x.key, app := x.app, res := i.res, foreign := false, ph := phv }],
+            allocated := addX n.allocated i.res, available := prune (subX n.available i.res) }), NodeBooks m := by
+          intro phv
+          apply books_upd_nodes _ _ _ hb.nodes
+          intro m hm _ hmb
+          obtain ⟨_, ho, ha, hv⟩ := hw.nodeRes m hm
+          constructor
+          · intro k
+            show (addX m.allocated i.res).getD k = allocSum (m.allocs ++ [_]) k
+            rw [addX_getD _ _ hwr, allocSum_append, ← hmb.allocated k]; simp [allocSum, sumIf_single]
+          · intro k
+            show (prune (subX m.available i.res)).getD k = m.total.getD k - (addX m.allocated i.res).getD k - m.occupied.getD k
+            rw [prune_subX_getD _ _ hv hwr, addX_getD _ _ hwr, hmb.available k]; omega
+        have hqon : ∀ q ∈ s.queues, under a.queue q.path = true → ∀ k,
+            (addX q.allocated i.res).getD k = q.allocated.getD k + i.res.getD k ∧
+            (decPendingRes q.pending i.res).getD k = q.pending.getD k - i.res.getD k := by
+          intro q hq hun k
+          obtain ⟨_, hqp, hqr⟩ := hw.queueRes q hq
+          refine ⟨addX_getD _ _ hwr k, decPendingRes_getD _ _ hqp hwr hqr (fun k' => ?_) k⟩
+          have := hge q hq hun k'; omega
+        cases hph : i.ph with
+        | true =>
+          refine books_upd s _ x.app a _ (pathChain s a.queue) _ rfl rfl (hnodes _) hw.appIds ham hl hid hb.apps hb.queues
+            rfl ?_ (chain_iff s a.queue) (fun _ => rfl) ?_
+          · intro _
+            refine ⟨?_, ?_, ?_⟩
+            · intro k
+              show a.allocated.getD k = itemSum (a.items.map _) _ k
+              rw [itemSum_upd _ hkeys x.key _ i him hkey, hba.allocated k]; simp [hnb, hph]
+            · intro k
+              show (addX a.allocatedPh i.res).getD k = itemSum (a.items.map _) _ k
+              rw [itemSum_upd _ hkeys x.key _ i him hkey, addX_getD _ _ hwr, hba.allocatedPh k]; simp [hnb, hph]
+            · intro k
+              show (prune (subX a.pending i.res)).getD k = itemSum (a.items.map _) _ k
+              rw [itemSum_upd _ hkeys x.key _ i him hkey, prune_subX_getD _ _ hwp hwr, hba.pending k]; simp [hreq, hnal]
+          · intro q hq hun k
+            obtain ⟨h1, h2⟩ := hqon q hq hun k
+            constructor
+            · show (addX q.allocated i.res).getD k = q.allocated.getD k - (a.allocated.getD k + a.allocatedPh.getD k) +
+                (if a.live = true then a.allocated.getD k + (addX a.allocatedPh i.res).getD k else 0)
+              rw [h1, addX_getD _ _ hwr]; simp only [hl, if_true]; omega
+            · show (decPendingRes q.pending i.res).getD k = q.pending.getD k - a.pending.getD k +
+                (if a.live = true then (prune (subX a.pending i.res)).getD k else 0)
+              rw [h2, prune_subX_getD _ _ hwp hwr]; simp only [hl, if_true]; omega
+        | false =>
+          refine books_upd s _ x.app a _ (pathChain s a.queue) _ rfl rfl (hnodes _) hw.appIds ham hl hid hb.apps hb.queues
+            rfl ?_ (chain_iff s a.queue) (fun _ => rfl) ?_
+          · intro _
+            refine ⟨?_, ?_, ?_⟩
+            · intro k
+              show (addX a.allocated i.res).getD k = itemSum (a.items.map _) _ k
+              rw [itemSum_upd _ hkeys x.key _ i him hkey, addX_getD _ _ hwr, hba.allocated k]; simp [hnb, hph]
+            · intro k
+              show a.allocatedPh.getD k = itemSum (a.items.map _) _ k
+              rw [itemSum_upd _ hkeys x.key _ i him hkey, hba.allocatedPh k]; simp [hnb, hph]
+            · intro k
+              show (prune (subX a.pending i.res)).getD k = itemSum (a.items.map _) _ k
+              rw [itemSum_upd _ hkeys x.key _ i him hkey, prune_subX_getD _ _ hwp hwr, hba.pending k]; simp [hreq, hnal]
+          · intro q hq hun k
+            obtain ⟨h1, h2⟩ := hqon q hq hun k
+            constructor
+            · show (addX q.allocated i.res).getD k = q.allocated.getD k - (a.allocated.getD k + a.allocatedPh.getD k) +
+                (if a.live = true then (addX a.allocated i.res).getD k + a.allocatedPh.getD k else 0)
+              rw [h1, addX_getD _ _ hwr]; simp only [hl, if_true]; omega
+            · show (decPendingRes q.pending i.res).getD k = q.pending.getD k - a.pending.getD k +
+                (if a.live = true then (prune (subX a.pending i.res)).getD k else 0)
+              rw [h2, prune_subX_getD _ _ hwp hwr]; simp only [hl, if_true]; omega
+  · exact hb
+
 end Yk
